@@ -18,9 +18,10 @@ CLAIMS = {
         "closed-form path and within 1e-7 on every expansion path (large-/small-z enclosures of f_PS from the Barr-Zee integral).  Real dilogarithm: every path is a documented functional "
         "equation of Li2 applied inside its domain (matched by content) around the code's Pade core, which is within 5e-14 of the power series on the whole interval the paths use; Clausen "
         "function: documented argument reduction (odd, 2 pi periodic, reflection; the two-term 2 pi within 1e-19) around two Pade kernels within 1e-14 of the Bernoulli series; complex "
-        "dilogarithm: every branch enters the Bernoulli series inside its domain of fast convergence.",
+        "dilogarithm: every branch enters the Bernoulli series inside its domain of fast convergence, is exactly sgn S(u) + rest with the documented inversion/reflection formula, the real Horner scheme is the "
+        "polynomial, the coefficient table is B_2k/(2k+1)!, and the truncation leaves a relative remainder <= 1e-13.",
    note=NOTE_COMMON + "Undecided remainder (not claimed): IEEE rounding inside each branch (in particular cancellation in the closed forms at large argument and the relative accuracy of Cl2 "
-        "next to its zeros, where the rounded argument dominates); truncation of the complex Bernoulli series and its coefficient table; relative accuracy of the real dilogarithm next to "
+        "next to its zeros, where the rounded argument dominates); relative accuracy of the real dilogarithm next to "
         "the zero of Re Li2 at x = 12.595 (absolute 5e-14 Li2(y) only).",
    technique="code contracts on extracted real functions: WP/SMT (z3 NRA) + CBMC DFCC contracts", design='5 C01'),
  'C02': dict(
@@ -61,7 +62,7 @@ CLAIMS = {
         "right-like smuon from its pole mass, the wrapper keeps that, and convert_me2 clears its flag only if that distance is within the goal); "
         "PRESERVATION frames (no later step of convert_to_onshell writes what a fitted mass matrix reads).",
    note=NOTE_COMMON + "Convergence of the iterations, conditioning and parameter recovery are numerical statements outside contracts (not decided); diagonalisations under A-LINALG. "
-        "ASSUMED: the contract of convert_me2_root_modify (boost TOMS748 and a local functor class are outside the extractor).  One open finding: the Yukawa update after the smuon fit moves the right-like smuon off its pole mass without warning.",
+        "The root-finder variant convert_me2_root_modify (with its local functor class) is executed symbolically as well; ASSUMED is only boost's toms748_solve (returns a bracket or throws std::exception, evaluates only the functor copy it is given).  One open finding: the Yukawa update after the smuon fit moves the right-like smuon off its pole mass without warning.",
    technique="loop contracts (invariant/frame/variant, Hoare rule over the extracted while loops) + symbolic execution with callee contracts (flag operations as ghost traces), ring identities through the real mass-matrix code, frame inference", design='5 C05'),
  'C06': dict(
    text="Relational contracts f(state) == f(flipped state) on the real MSSM functions, proved as rational-function identities for ALL parameter values: every leading-log one-loop term, "
@@ -116,7 +117,7 @@ CLAIMS = {
         "domain -- each shift guard removes the pole it is meant for and no unguarded pole remains (with and, per function, without the assumption that two removable singularities do not "
         "coincide); helpers are called inside their preconditions (modular); the guard in amu2L_B_EWadd only moves the argument (the unguarded temporary is dead downstream); the quark Barr-Zee functions FCWu, FCWd, f_CSu, f_CSd, phi_over_y "
         "under their documented/physical preconditions (xu yd == xd yu; down-type quark lighter than half the W and H+- masses) and their call sites fuHp/fdHp; dxlog's series "
-        "has the Taylor coefficients of its definition.  Counterexamples are replayed on the real code along the property's one-parameter path with the property's own 1%-band criterion.  MSSM: tan_alpha() returns the negative root of t x^2 + 2x - t = 0 (t = tan 2 alpha) on BOTH sides of M_A = M_Z for all tan(beta) != 1; at M_A == M_Z exactly -1 (BOUNDED: IEEE execution at 60 points).",
+        "has the Taylor coefficients of its definition.  Counterexamples are replayed on the real code along the property's one-parameter path with the property's own 1%-band criterion.  MSSM: tan_alpha() returns the negative root of t x^2 + 2x - t = 0 (t = tan 2 alpha) on BOTH sides of M_A = M_Z for all tan(beta) != 1; at M_A == M_Z exactly -1 (BOUNDED: IEEE execution at 60 points).  FLOATING-POINT side contract (standard model, u = 2^-53; not an A-REAL statement): the two guards with which phi_over_y recognises a zero of its denominator are above the rounding noise of the tested expression (guard constant >= 4 u mag(E)), so the exact coincidence m_H+ = m_t +- m_b takes the analytic limit.",
    note=NOTE_COMMON + "NOT decided: the 1% band itself (size of the cancellations between pole terms after a shift of 1e-8) and everything about rounding; the neutral fermionic two-loop, the one-loop THDM and "
         "the MSSM functions are covered for this property only through the loop-function contracts of C01/C02 (equal-argument branches).  T7/T8 (complex square roots) only through their call-site preconditions. "
         "Four fixed findings (Kaellen zeros, m_h = 2 m_W, guard onto the pole at m_h = m_Z, guard order in YF3).",
